@@ -19,11 +19,12 @@
      2  partial_cmp(..).unwrap() on a NaN cell inside min_by/max_by
      3  pdf_new[k + s as usize]: index out of bounds / usize overflow (debug build)
      4  pdf_new[..=max + range]: slice end out of range (never: size = M*1000+1)
-     5  w * self.offset: i32 overflow (debug build; the harness builds with overflow checks)
+     5  (unused since the repair of the i32 offset: w * self.offset is computed in f64)
      6  pvalue.partial_cmp(x).unwrap() on NaN in score()
      7  get_unchecked(mid) outside the slice (never: invariant of std's loop)
      8  sf.len() - 2 underflow (never: M >= 1 when this point is reached)
      9  self.sf[self.max_score as usize] out of bounds (never)
+    10  self.sf[0] on an empty table in pvalue() (never: the table has M*1000+1 entries)
    Err 1 marks an input that the Rust types exclude (a row or the background not of
    length K). *)
 From Coq Require Import List ZArith Bool Arith Lia.
@@ -47,7 +48,7 @@ Record NumOps (T : Type) : Type := {
   n_is_inf : T -> bool;                     (* f32::is_infinite *)
   n_cmp : T -> T -> option comparison;      (* partial_cmp *)
   n_min1 : T -> T;                          (* p.min(1.0) *)
-  n_unscale : Z -> T -> Z -> T              (* (i as f32) / (scale as f32) + (wo as f32), as f64 *)
+  n_unscale : Z -> T -> T -> T              (* (i as f32) / (scale as f32) + (wo as f32), as f64; wo = w * offset : f64 *)
 }.
 
 Arguments n_zero {T}. Arguments n_one {T}. Arguments n_add {T}. Arguments n_sub {T}.
@@ -77,7 +78,7 @@ Definition as_usize (z : Z) : Z := if z <? 0 then z + 18446744073709551616 else 
 (* The distribution object (private fields of ScoreDistribution that matter). *)
 Record dist (T : Type) : Type := {
   d_scale_f : T;          (* scale: f64 *)
-  d_offset : Z;           (* offset: i32 *)
+  d_offset : T;           (* offset: f64 *)
   d_rows : Z;             (* data.rows() *)
   d_data : list (list Z); (* discretised matrix (i32, i32::MIN = skip) *)
   d_sf : list T;
@@ -248,7 +249,10 @@ Section Model.
     match rev pdf with
     | [] => Panic 8
     | [_] => Panic 8
-    | last :: revrest => Ok (sf_loop (Z.of_nat (length pdf) - 2) revrest last [last] 0 0)
+    | last0 :: revrest =>
+        (* if let Some(last) = sf.last_mut() { *last = last.min(1.0) } *)
+        let last := n_min1 N last0 in
+        Ok (sf_loop (Z.of_nat (length pdf) - 2) revrest last [last] 0 0)
     end.
 
   (* ----- From<ScoringMatrix> ----- *)
@@ -259,7 +263,10 @@ Section Model.
     large <- large_of m ;;
     let small := if eqb_n small0 large then n_sub N large one else small0 in
     let offset := n_floor N small in
-    let scale := n_floor N (n_div N (n_of_Z N (Z.of_nat cdf_range)) (n_sub N large offset)) in
+    let quot := n_div N (n_of_Z N (Z.of_nat cdf_range)) (n_sub N large offset) in
+    let scale0 := n_floor N quot in
+    (* if scale == 0.0 { scale = CDF_RANGE / (large - offset) } *)
+    let scale := if eqb_n scale0 zero then quot else scale0 in
     Ok (offset, scale).
 
   Definition build (m : list (list (cell T))) (bg : list T) : res (dist T) :=
@@ -270,27 +277,23 @@ Section Model.
     pdf <- pdf_of bg data ;;
     s <- survival pdf ;;
     let '(sf, mn, mx) := s in
-    Ok {| d_scale_f := scale; d_offset := n_to_i32 N offset; d_rows := Z.of_nat (length m);
+    Ok {| d_scale_f := scale; d_offset := offset; d_rows := Z.of_nat (length m);
           d_data := data; d_sf := sf; d_min := mn; d_max := mx |}.
 
   (* ----- methods ----- *)
 
-  (* w * self.offset in i32 *)
-  Definition d_wo (d : dist T) : res Z :=
-    let wo := d_rows d * d_offset d in
-    if in_i32 wo then Ok wo else Panic 5.
+  (* w * self.offset with w = rows as f64 *)
+  Definition d_wo (d : dist T) : T := n_mul N (n_of_Z N (d_rows d)) (d_offset d).
 
   Definition d_scale (d : dist T) (score : T) : res Z :=
-    wo <- d_wo d ;;
-    Ok (n_round_i32 N (n_mul N (n_sub N score (n_of_Z N wo)) (d_scale_f d))).
+    Ok (n_round_i32 N (n_mul N (n_sub N score (d_wo d)) (d_scale_f d))).
 
   Definition d_unscale (d : dist T) (i : Z) : res T :=
-    wo <- d_wo d ;;
-    Ok (n_unscale N i (d_scale_f d) wo).
+    Ok (n_unscale N i (d_scale_f d) (d_wo d)).
 
   Definition d_pvalue (d : dist T) (score : T) : res T :=
     scaled <- d_scale d score ;;
-    if scaled <? d_min d then Ok one
+    if scaled <? d_min d then (match d_sf d with [] => Panic 10 | x :: _ => Ok x end)
     else if Z.of_nat (length (d_sf d)) <=? as_usize scaled then Ok zero
     else Ok (nth (Z.to_nat scaled) (d_sf d) zero).
 
